@@ -137,7 +137,7 @@ func TestC01Filter(t *testing.T) {
 			}
 			pod.Status.Phase = p.Phase
 			if p.Term {
-				ts := metav1.NewTime(now.Add(-2 * time.Second))
+				ts := metav1.NewTime(now.Add(28 * time.Second)) // request + grace period
 				pod.DeletionTimestamp = &ts
 			}
 			podList.Items = append(podList.Items, pod)
